@@ -28,7 +28,7 @@ public:
   }
 };
 
-struct Conf { const char *name; std::string body; bool script; bool reduction; int natoms; int long_run = 0; };
+struct Conf { const char *name; std::string body; bool script; bool reduction; int natoms; int long_run = 0; bool first_component_off = false; };
 
 static std::vector<Conf> menu()
 {
@@ -57,6 +57,19 @@ static std::vector<Conf> menu()
                "scriptedColvarForces on\nscriptingAfterBiases on\n" + cv3 + "harmonic {\n name h1\n colvars d1\n centers 1.0\n forceConstant 2.0\n}\n"
                                                                              "harmonic {\n name h2\n colvars d2\n centers 2.0\n forceConstant 1.0\n}\n",
                true, false, 5});
+  // a variable whose FIRST component is switched off from the script interface (cvcflags): the work items of the parallel
+  // loop must be the components that are on
+  {
+    Conf c{"three-component-variable-first-switched-off",
+           "colvar {\n name s\n distance {\n componentCoeff 1.5\n group1 { atomNumbers 1 }\n group2 { atomNumbers 2 }\n }\n"
+           " distance {\n componentCoeff -0.5\n group1 { atomNumbers 3 }\n group2 { atomNumbers 4 }\n }\n"
+           " distance {\n componentCoeff 2.0\n group1 { atomNumbers 4 }\n group2 { atomNumbers 5 }\n }\n}\n"
+           "colvar {\n name d2\n distance {\n group1 { atomNumbers 3 }\n group2 { atomNumbers 4 }\n }\n}\n"
+           "harmonic {\n name h1\n colvars s\n centers 0.5\n forceConstant 2.0\n}\n",
+           false, false, 5};
+    c.first_component_off = true;
+    m.push_back(c);
+  }
   // multiple-time-step variables: the set of variables that are awake, hence the list of work items, changes from step to
   // step (2 -> 3: d2 replaces d1 with the same number of components); explored over 4 steps (0..3) with few preemptions
   {
@@ -110,6 +123,10 @@ static Outcome execute(Conf const &c, int mode, int T, std::vector<int> const &p
   // variable, accumulated from all its components
   for (auto *cv : *(px->colvars->variables()))
     if (cv->value().type() == colvarvalue::type_scalar) cv->enable(colvardeps::f_cv_collect_gradient);
+  if (c.first_component_off) {
+    std::vector<bool> flags = {false, true, true};
+    px->cv("s")->set_cvc_flags(flags);
+  }
   cvm::clear_error();
   for (long s = 0; s < nsteps; s++) {
     place(*px, s);
